@@ -104,6 +104,21 @@ CLAIMED = {
              "oracle, not yet by a for-all theorem (Proofs/SplitProofs.v in progress); join has no executable model yet "
              "(it goes through degree elevation and knot_clean), so its correspondence is oracle-only. Known finding K6: a "
              "rational join keeps the junction knot with full multiplicity."),
+    "C08": dict(
+        text="Decided per generated case inside Coq: for every operator form (+ - * / @ unary -, scalar and vector operands on "
+             "either side, numerators s != 1, matrix on the right) the implementation's result curve is evaluated through the "
+             "Cox-de Boor specification and compared with the pointwise expression of the operands at 2(p+q)+3 points of every "
+             "span of the merged knots, every knot and both ends (exact for the polynomial and rational pieces involved); "
+             "operands unchanged; different intervals -> ValueError. Model of +, -, *, /, scalar forms for polynomial operands "
+             "(common refinement, change-of-basis matrices, product knot vector from continuity classes, collocation solve) tied "
+             "by exact differential execution. Theorems (Props/C08.v): the union vector refines both operands, different "
+             "intervals refused, change-of-basis matrices preserve the curve at every u, the product coefficients are the "
+             "least-squares solution of the collocation system (minimal, and exact whenever an exact solution exists).",
+        design="7/C08",
+        technique="Coq proof (refinement, change of basis, certified collocation solve) + correspondence and exact pointwise oracle by vm_compute",
+        note="PART: the for-all-u statement for products needs polynomial root counting (not formalised); rational operands "
+             "and @ are decided by the oracle only (no executable model). Known findings: K3 (A/B when a refined control "
+             "value of B vanishes), K4 (numpy array on the left of a curve)."),
     "C10": dict(
         text="Unbounded theorems (Props/C10.v), for EVERY n: the interpolatory weights the model computes (inverse of the "
              "Bernstein collocation matrix, certified) integrate the whole Bernstein basis and every monomial of degree < n "
